@@ -196,6 +196,16 @@ class AGen:
         self.to_main.release()
         self.to_gen.acquire()
         self.interp._gen_stack.append(self)
+        pending, self.pending_throw = getattr(self, 'pending_throw', None), None
+        if pending is not None:
+            raise pending          # generator.throw(): the exception is raised at the yield
+
+    def throw(self, sig):
+        """raise `sig` inside the generator at its current yield -> (True, value) if it yields again | (False, None) if it finishes; the exception propagates if not handled"""
+        if self.done or not self.started:
+            raise sig
+        self.pending_throw = sig
+        return self.next()
 
 
 class ACount:
@@ -408,10 +418,15 @@ class Interp:
                 try:
                     self.exec_block(s.body, env)
                 except (RaiseSig,) as sig:
-                    if guarded:
-                        raise Unrecognised(self.rule, 'an exception leaves a with block whose context manager handles exceptions', self.mod.rel)
-                    cm.next()
-                    raise
+                    # contextlib.contextmanager: the exception is thrown into the generator at its yield; if the generator finishes without re-raising, it is swallowed
+                    try:
+                        again, _v = cm.throw(sig)
+                    except RaiseSig as out:
+                        if out.cls == '<reraise>':
+                            raise sig
+                        raise
+                    if again:
+                        raise RaiseSig('RuntimeError', ("generator didn't stop after throw()",), s)
                 except (ReturnSig, BreakSig, ContinueSig):
                     cm.next()
                     raise
@@ -509,10 +524,22 @@ class Interp:
             base.attrs[t.attr] = val
         elif isinstance(t, (ast.Tuple, ast.List)):
             items = self.iterate(val, t)
-            if len(items) != len(t.elts):
-                self.bad(t, 'unpack length mismatch')
-            for e, v in zip(t.elts, items):
-                self.assign(e, v, env)
+            star = [i for i, x in enumerate(t.elts) if isinstance(x, ast.Starred)]
+            if star:
+                k = star[0]
+                after = len(t.elts) - k - 1
+                if len(star) > 1 or len(items) < len(t.elts) - 1:
+                    raise RaiseSig('ValueError', ('not enough values to unpack',), t)
+                for e, v in zip(t.elts[:k], items[:k]):
+                    self.assign(e, v, env)
+                self.assign(t.elts[k].value, AList(items[k:len(items) - after]), env)
+                for e, v in zip(t.elts[k + 1:], items[len(items) - after:] if after else []):
+                    self.assign(e, v, env)
+            else:
+                if len(items) != len(t.elts):
+                    raise RaiseSig('ValueError', (f'unpack: expected {len(t.elts)} values, got {len(items)}',), t)
+                for e, v in zip(t.elts, items):
+                    self.assign(e, v, env)
         else:
             self.bad(t, 'assignment target outside the subset')
 
@@ -871,6 +898,9 @@ class Interp:
             base = self.eval(e.value, env)
             if isinstance(base, tuple) and base and base[0] in ('module', 'hostattr') and f'{base[1]}.{e.attr}' in ('os.sep', 'os.path.sep'):
                 return '/'
+            if isinstance(base, tuple) and base and base[0] in ('module', 'hostattr') and f'{base[1]}.{e.attr}' in ('math.inf', 'math.nan', 'math.pi', 'math.e', 'math.tau'):
+                import math as _m
+                return getattr(_m, e.attr)
             if isinstance(base, tuple) and base and base[0] == 'module':
                 return ('hostattr', f'{base[1]}.{e.attr}')
             if isinstance(base, tuple) and base and base[0] == 'hostattr':
@@ -922,6 +952,13 @@ class Interp:
             if not self._gen_stack:
                 self.bad(e, 'yield outside a generator call')
             self._gen_stack[-1].yield_(self.eval(e.value, env) if e.value is not None else None)
+            return None
+        if isinstance(e, ast.YieldFrom):
+            if not self._gen_stack:
+                self.bad(e, 'yield from outside a generator call')
+            src = self.eval(e.value, env)
+            for item in self.py_iter(src, e.value):
+                self._gen_stack[-1].yield_(item)
             return None
         if isinstance(e, ast.DictComp):
             pairs = []
@@ -1129,7 +1166,7 @@ class Interp:
             base = self.eval(f.value, env)
             args = self.eval_args(e, env)
             if e.keywords and not (isinstance(base, tuple) and base and base[0] in ('module', 'hostattr')) and not (isinstance(base, AList) and f.attr == 'sort') \
-                    and not isinstance(base, Sym) and not getattr(base, '_host_object', False):
+                    and not isinstance(base, (Sym, AObj)) and not getattr(base, '_host_object', False):
                 self.bad(e, 'keyword arguments in a method call')
             self._kwargs = {}
             for kw in e.keywords:
@@ -1298,7 +1335,7 @@ class Interp:
             raise RaiseSig('TypeError', (f'{cname}() takes no arguments',), at)
         return obj
 
-    def call_object_method(self, obj, m, args, at):
+    def call_object_method(self, obj, m, args, at, kwargs=None):
         home = self.class_home(obj.cls)
         if home is None:
             self.bad(at, f'method {m} of an instance of {obj.cls}')
@@ -1307,7 +1344,7 @@ class Interp:
         if f is None:
             raise RaiseSig('AttributeError', (m,), at)
         it = self if mod is self.mod else self.sub_interp(mod)
-        return it.call_function(f, [obj] + list(args), at)
+        return it.call_function(f, [obj] + list(args), at, kwargs)
 
     def sub_interp(self, other):
         """interpreter for another repository module sharing oracles, hooks and scenario state with this one"""
@@ -1462,6 +1499,18 @@ class Interp:
             return d
         if name == 'collections.OrderedDict' and not args:
             return ADict({})
+        if name == 'collections.deque':
+            kw = dict(getattr(self, '_kwargs', None) or {})
+            self._kwargs = {}
+            items = self.iterate(args[0], e) if args else []
+            maxlen = args[1] if len(args) > 1 else kw.get('maxlen')
+            if maxlen is not None:
+                if not isinstance(maxlen, int) or isinstance(maxlen, bool):
+                    self.bad(e, 'deque maxlen')
+                items = items[len(items) - maxlen:] if maxlen else []
+            d = AList(items)
+            d.maxlen = maxlen
+            return d
         if name == 'functools.partial' and args:
             kw = getattr(self, '_kwargs', {}) or {}
             self._kwargs = {}
@@ -1613,7 +1662,17 @@ class Interp:
                 return None
             self.bad(e, f'super().{m}()')
         if isinstance(base, AObj):
-            return self.call_object_method(base, m, args, e)
+            kw = dict(getattr(self, '_kwargs', None) or {})
+            self._kwargs = {}
+            if getattr(base, 'is_tuple', False) and m in ('_replace', '_asdict'):
+                if m == '_asdict':
+                    return ADict({f: base.attrs[f] for f in base.fields})
+                new = AObj(base.cls)
+                new.attrs = dict(base.attrs)
+                new.attrs.update(kw)
+                new.fields, new.frozen, new.is_tuple = base.fields, True, True
+                return new
+            return self.call_object_method(base, m, args, e, kw or None)
         if base == ('builtin', 'dict') and m == 'fromkeys' and 1 <= len(args) <= 2:
             out = ADict({})
             for k in self.iterate(args[0], e):
@@ -2086,6 +2145,17 @@ class Interp:
             obj, attr = args[0], args[1]
             if isinstance(obj, tuple) and obj and obj[0] == 'partial' and attr in ('func', 'args', 'keywords'):
                 return True if name == 'hasattr' else obj[1] if attr == 'func' else tuple(obj[2]) if attr == 'args' else ADict()
+            if isinstance(obj, AObj):
+                if attr in obj.attrs:
+                    return True if name == 'hasattr' else obj.attrs[attr]
+                home = self.class_home(obj.cls)
+                if home is not None and f'{obj.cls}.{attr}' in home[0].funcs:
+                    return True if name == 'hasattr' else ('bound', obj, attr)
+                if name == 'hasattr':
+                    return False
+                if len(args) > 2:
+                    return args[2]
+                raise RaiseSig('AttributeError', (attr,), e)
             plain = obj is None or isinstance(obj, (bool, int, float, str, AList, ADict, ModuleFunc)) or \
                 (isinstance(obj, tuple) and obj and obj[0] in ('closure', 'closure-def', 'partial', 'extern', 'builtin'))
             if plain and attr in ('func', 'args', 'keywords', 'return_value'):
